@@ -456,6 +456,8 @@ var nearMisses = []string{
 	"http://[::1]:8080/x", "http://[::1:8080]/x", "https://a.test/x", "http://a.test:8080/x",
 	"http://a.test/X", "http://a.test/x/", "http://a.test/x?q=1", "http://a.test/x?q=2", "http://a.test/%E9",
 	"http://a.test/%C3%A9", "http://a.test/x%2Fy", "http://a.test/x/y",
+	// empty segments and dot-segments at the root: "/..//x" is "//x", not "/x" (RFC 3986 §5.2.4)
+	"http://a.test//x", "http://a.test/..//x", "http://a.test/.//x", "http://a.test///x", "http://a.test/x/..//x", "http://a.test/x//",
 }
 
 func (g *G) urlFor(res int, respell bool) string {
@@ -621,7 +623,7 @@ func init() {
 	})
 	profiles["urls"] = derive("urls", func(p *Profile) {
 		p.NReq = [2]int{5, 10}
-		p.URLs, p.PSpelling, p.PVary, p.PUnsafe, p.PReqCC = 19, 0.5, 0.0, 0.0, 0.0
+		p.URLs, p.PSpelling, p.PVary, p.PUnsafe, p.PReqCC = 25, 0.5, 0.0, 0.0, 0.0
 		p.PNoCache, p.PMustReval, p.PSWR, p.PSIE, p.PErrReply, p.PHeuristic = 0, 0, 0, 0, 0, 0
 		p.PLocation, p.PConnHdr, p.PRange, p.PDate, p.PAge = 0, 0, 0, 0, 0
 		p.Statuses = []int{200}
